@@ -291,6 +291,15 @@ func genC07(cfg Config, emit Emit) error {
 func pickSigner(name string) (principal.Signer, error) {
 	pools()
 	switch {
+	case strings.HasPrefix(name, "as:"):
+		// an Ed25519 key acting under an arbitrary DID: "as:<did>:<key index>"
+		i := strings.LastIndex(name, ":")
+		k := edPool[atoi(name[i+1:])%edPoolSize]
+		d, err := did.Parse(name[3:i])
+		if err != nil {
+			return nil, err
+		}
+		return signer.Wrap(k, d)
 	case strings.HasPrefix(name, "rsa"):
 		return rsaPool[atoi(name[3:])%len(rsaPool)], nil
 	case strings.HasPrefix(name, "wrap"):
